@@ -417,7 +417,8 @@ class SockRunner:
             # another task calls send() at the moment the client closes its transport (teardown window of
             # reset_connection / of the read loop after a fault): one-shot
             k, pol = st[1], st[2]
-            net.on_client_close = lambda conn: (self.events.append(("hooksend",)), self._spawn(self._do_send(k, pol)))
+            net.on_client_close = lambda conn: (self.events.append(("hooksend", int(bool(conn.lost or conn.transport._conn_lost)))),
+                                                self._spawn(self._do_send(k, pol)))
         elif kind == "bp":
             # transport back-pressure: while on, writer.drain() blocks (the transport called
             # pause_writing() on the stream protocol); also applied to connections opened meanwhile
